@@ -25,7 +25,7 @@ class C06(Prop):
         return (
             "format_agp text of random assemblies (incl. zero/negative-length gaps, empty scaffolds, odd names), of the "
             "assembly derived from random FASTA files by index_fasta_file (the .agp cache), and the output of "
-            "asm-format (AGP and TPF input) run in process, and of assemblies streamed to FASTA with their AGP (gaps longer than the buffer); judged by an independent AGP column checker against the "
+            "asm-format (AGP and TPF input) run in process, and of assemblies streamed to FASTA with their AGP (gaps longer than the buffer); and the cache AGP left behind when the indexing run meets an I/O error at its k-th file operation (k = 0..39); judged by an independent AGP column checker against the "
             "scaffold lengths. non-trivial = distinct assembly with >= 2 rows in some scaffold"
         )
 
@@ -56,6 +56,11 @@ class C06(Prop):
             rows = gen_rows_over(rng, layout, rng.randint(1, 6), strands=(1, -1), maxgap=rng.choice([buf, 2 * buf, 3 * buf + 1, 40]))
             yield {"gen": "fasta+agp", "kind": "stream", "layout": layout, "data": F.render(layout), "buf": buf,
                    "scaffolds": [{"name": "SUPER_1", "rows": rows}]}
+        # the .agp cache when an indexing run hits an I/O error (disk full) at its k-th file operation:
+        # whatever file is left under the cache's name must still be a complete, valid AGP of the FASTA
+        for k in range(0, 40 if tier == "quick" else 120):
+            layout = F.gen_fasta(rng, nrec=rng.choice([2, 3, 6]), maxlen=30)
+            yield {"gen": "fault-cache", "kind": "fault", "layout": layout, "data": F.render(layout), "k": k}
         for _ in range(10 if tier == "quick" else 150):
             which = rng.choice(["agp", "tpf"])
             a = T.gen_asm(rng, tpf_able=(which == "tpf"))
@@ -63,8 +68,43 @@ class C06(Prop):
                 sc["name"] += f".{k}"  # distinct object names
             yield {"gen": "asm-format/" + which, "kind": "cli", "fmt": which, "asm": a}
 
+    def run_fault(self, case):
+        import shutil
+
+        from tola.fasta.index import FastaIndex
+
+        from .. import core, fsim
+
+        root = core.BUILD / self.pid / "fs"
+        shutil.rmtree(root, ignore_errors=True)
+        root.mkdir(parents=True)
+        sim = fsim.Sim(root)
+        fsim.SIM = sim
+        fsim.install()
+        status = "done"
+        try:
+            sim.rewrite_fasta(case["data"].encode("latin-1"), True)
+            sim.tick()
+            sim.tls.pid = 0
+            sim.fault_at[0] = case["k"]
+            try:
+                FastaIndex(sim.fasta).auto_load()
+            except BaseException as e:
+                status = type(e).__name__
+            finally:
+                sim.tls.pid = None
+        finally:
+            fsim.uninstall()
+            fsim.SIM = None
+        agp = root / "g.fa.agp"
+        faulted = any(t[0] == "op" and t[2] == "OFault" for t in sim.trace)
+        return {"status": status, "faulted": faulted, "text": agp.read_text() if agp.exists() else None,
+                "leftovers": sorted(p.name for p in root.iterdir() if p.name.endswith(".tmp"))}
+
     def run_impl(self, case):
         k = case["kind"]
+        if k == "fault":
+            return self.run_fault(case)
         if k == "format":
             return {"text": T.fmt(case["asm"], "agp")}
         if k == "fasta":
@@ -90,6 +130,8 @@ class C06(Prop):
 
     def term(self, case, obs):
         k = case["kind"]
+        if k == "fault":
+            return []
         if k == "format":
             return lambda names: f"CFormatAgp {T.asm_term(case['asm'], names)} {T.opt_text(obs['text'], names)}"
         if k in ("fasta", "stream"):
@@ -102,6 +144,22 @@ class C06(Prop):
 
     def oracle(self, case, obs):
         k = case["kind"]
+        if k == "fault":
+            if obs["text"] is None:
+                return None
+            want = {r["name"]: len(r["seq"]) for r in case["layout"]["records"]}
+            w = T.check_agp_text(obs["text"], want)
+            if w:
+                return f"after an I/O error at file operation {case['k']} of the indexing run the cache AGP is invalid: {w}"
+            ends = {}
+            for ln in obs["text"].splitlines():
+                f = ln.split("\t")
+                if len(f) > 2 and not ln.startswith("#"):
+                    ends[f[0]] = int(f[2])
+            if ends != want:
+                return (f"after an I/O error at file operation {case['k']} of the indexing run the cache AGP left in place "
+                        f"describes {ends}, the FASTA records are {want}")
+            return None
         if k in ("fasta", "stream") and "err" in obs["index"]:
             return f"well-formed FASTA rejected: {obs['index']}"
         if k == "cli" and obs["exit"] != 0:
@@ -140,6 +198,8 @@ class C06(Prop):
         return None
 
     def key(self, case, obs):
+        if case["kind"] == "fault":
+            return super().key(case, obs) if obs.get("faulted") else None
         a = obs.get("asm") if case["kind"] in ("fasta", "stream") else case.get("asm")
         if not a or not any(len(sc["rows"]) >= 2 for sc in a["scaffolds"]):
             return None
